@@ -188,7 +188,8 @@ let is_default_vertex (v : vertex) : bool =
      | HBytes (a, O) -> List.for_all (fun b -> b = N0) a
      | _ -> false
 
-let snap_out (g : sodg) : string =
+(* [holes]: ids of the vacant slots of the vertex store (XJoin.v); the harness prints such a slot as "<id>:-" *)
+let snap_out_holes (holes : int list) (g : sodg) : string =
   let b = Buffer.create 256 in
   Buffer.add_string b
     (Printf.sprintf "cap=%d next=%d bc=%d sc=%d V["
@@ -198,7 +199,11 @@ let snap_out (g : sodg) : string =
   let sep () = if not !first then Buffer.add_char b ' '; first := false in
   List.iteri
     (fun i v ->
-      if not (is_default_vertex v) then begin
+      if List.mem i holes then begin
+        sep ();
+        Buffer.add_string b (Printf.sprintf "%d:-" i)
+      end
+      else if not (is_default_vertex v) then begin
         sep ();
         Buffer.add_string b
           (Printf.sprintf "%d:%d,%s,%s,[%s]" i (int_of_nat v.v_branch)
@@ -228,3 +233,8 @@ let snap_out (g : sodg) : string =
     g.g_stores;
   Buffer.add_char b ']';
   Buffer.contents b
+
+let snap_out (g : sodg) : string = snap_out_holes [] g
+
+(* extended states (XJoin.v): the underlying state plus the list of vacant slots *)
+let xsnap_out (x : xs) : string = snap_out_holes (List.map int_of_nat x.xh) x.xg
